@@ -9,6 +9,7 @@ import (
 	"sort"
 	"strings"
 	"sync"
+	"sync/atomic"
 	"time"
 
 	"golang.org/x/tools/go/packages"
@@ -54,7 +55,10 @@ type Program struct {
 	verbose   bool
 	pathLimit time.Duration
 	hardStop  time.Time
+	fallbacks int64
 }
+
+func (p *Program) addFallback() { atomic.AddInt64(&p.fallbacks, 1) }
 
 func (p *Program) pathDeadline() time.Time {
 	d := time.Now().Add(p.pathLimit)
